@@ -306,12 +306,20 @@ def extra(stats, tier, seed):
             ex = AsyncioExecutor(rec)
             ex.shutdown()
             stats.add([[11, 2]], True, None, ["api:asyncio-noloop"])
-            try:
-                ex.submit(lambda: 9)
-                viol("AsyncioExecutor(loop=None).submit after shutdown returned", "shutdown:submit-after:submit", "asyncio-noloop")
-            except RuntimeError as e:
-                if str(e) != MSG:
-                    viol("AsyncioExecutor(loop=None).submit after shutdown raised %r" % str(e), "shutdown:submit-after:submit", "asyncio-noloop")
+            got = []
+
+            def noloop():
+                # (a thread that has no current event loop: asyncio.get_event_loop() raises there)
+                try:
+                    ex.submit(lambda: 9)
+                    got.append("returned")
+                except BaseException as e:
+                    got.append(str(e))
+            th = det._real_Thread(target=noloop)
+            th.start()
+            th.join(30)
+            if got != [MSG]:
+                viol("AsyncioExecutor(loop=None).submit after shutdown, from a thread without an event loop: %r" % (got,), "shutdown:submit-after:submit", "asyncio-noloop")
         finally:
             loop.close()
     # 2. a delegate whose shutdown() RAISES: the layer is shut down all the same (flag set, submit refused, a repeated shutdown(wait=True)
